@@ -6,7 +6,9 @@
     register_awkward / register_numba and import-time table construction, whose call sites are checked to be module level;
 (b) bounded run-time contract: numpy.geterr(), warnings.filters, print options and awkward.behavior are identical before and
     after a sweep of public calls (returning and raising) under several prior settings; register_awkward is idempotent;
-(c) thread determinism is NOT explored: it is a corollary of C16 + these frames under the stated assumptions."""
+(c) thread determinism: a corollary of C16 + these frames + the clause that no *shared* helper instance (module-level or handed out by a
+    caching factory) is written through `self` by a method (static, `shared_instance_state`); plus a BOUNDED probe running the same
+    operations concurrently from several threads against their sequential results (`thread_probe`; interleavings are not enumerated)."""
 from __future__ import annotations
 
 import ast
@@ -45,6 +47,87 @@ def table_builders_only_at_import(src, check):
                     for node in ast.walk(fn):
                         if isinstance(node, ast.Call) and isinstance(node.func, ast.Name) and node.func.id in TABLE_BUILDERS:
                             check(f"static/table-builder-called-at-run-time/{f}:{getattr(fn, 'name', 'lambda')}", False, f"line {node.lineno}")
+
+
+def shared_instance_state(src, sites, check):
+    """Purity clause behind thread determinism: an operation must not write state that outlives the call.  Beyond module state (above), that is
+    the instance state of helper objects that are *shared* between calls: a class whose instances are created at module level or handed out by
+    a caching factory (functools.lru_cache / functools.cache) must not have methods (other than __init__/__new__) that write through `self`."""
+    from .c16 import OPERAND_KINDS
+    shared = {}      # class name -> how its instances come to be shared
+    for dp, dn, fns in os.walk(src):
+        for f in sorted(fns):
+            if not f.endswith(".py") or f.startswith("_version"):
+                continue
+            tree = ast.parse(open(os.path.join(dp, f)).read())
+            classes = {n.name for n in ast.walk(tree) if isinstance(n, ast.ClassDef)}
+            for node in tree.body:
+                # module-level instance:  NAME = Cls(...)
+                if isinstance(node, (ast.Assign, ast.AnnAssign)) and isinstance(node.value, ast.Call) and isinstance(node.value.func, ast.Name) and node.value.func.id in classes:
+                    shared.setdefault(node.value.func.id, f"module-level instance in {f}:{node.lineno}")
+            for fn in ast.walk(tree):
+                if isinstance(fn, (ast.FunctionDef, ast.AsyncFunctionDef)):
+                    decos = [ast.unparse(d) for d in fn.decorator_list]
+                    if any(("lru_cache" in d or d.endswith("cache") or "cache(" in d) for d in decos):
+                        for node in ast.walk(fn):
+                            if isinstance(node, ast.Return) and isinstance(node.value, ast.Call) and isinstance(node.value.func, ast.Name) and node.value.func.id in classes:
+                                shared.setdefault(node.value.func.id, f"instances cached by {fn.name} ({', '.join(decos)}) in {f}:{fn.lineno}")
+    n = 0
+    for s_ in sites:
+        if s_["kind"] not in OPERAND_KINDS:
+            continue
+        parts = s_["function"].split(".")
+        if len(parts) < 2 or parts[-1] in ("__init__", "__new__"):
+            continue
+        cls = parts[-2]
+        if cls in shared and s_.get("root") in ("self", None):
+            n += 1
+            check(f"static/shared-instance-state/{s_['function']}:{s_['text'][:60]}", False, dict(kind=s_["kind"], text=s_["text"], where=s_["where"], shared_because=shared[cls]))
+    return shared
+
+
+def thread_probe(F, rounds=40, nthreads=4):
+    """BOUNDED: the same operations evaluated concurrently from several threads give exactly the sequential results"""
+    import threading
+    import numpy as np
+    import vector
+    try:
+        import awkward as ak
+    except Exception:
+        ak = None
+    arrs = [("numpy", vector.array({"x": np.arange(1.0, 6.0), "y": np.arange(2.0, 7.0), "z": np.arange(3.0, 8.0), "t": np.arange(10.0, 15.0)}))]
+    if ak is not None:
+        arrs.append(("awkward", vector.Array([[{"x": 1.0, "y": 2.0, "z": 3.0, "t": 10.0}, {"x": -1.0, "y": 0.5, "z": 2.0, "t": 9.0}], [], [{"x": 0.25, "y": -2.0, "z": 1.0, "t": 8.0}]])))
+    ops = [("scale", lambda v, k: v.scale(k)), ("rotateZ", lambda v, k: v.rotateZ(k)), ("boostZ", lambda v, k: v.boostZ(beta=k / 10.0)), ("rotate_axis", lambda v, k: v.rotate_axis(v.to_Vector3D(), k))]
+
+    def norm(r):
+        return [np.asarray(ak.to_numpy(ak.flatten(getattr(r, c), axis=None)) if (ak is not None and isinstance(r, ak.Array)) else getattr(r, c)).tolist() for c in ("x", "y", "z", "t")]
+    for bname, v in arrs:
+        for oname, op in ops:
+            ks = [0.5 + 0.37 * i for i in range(nthreads)]
+            ref = [norm(op(v, k)) for k in ks]
+            bad = []
+            barrier = threading.Barrier(nthreads)
+
+            def work(i):
+                try:
+                    for _ in range(rounds):
+                        barrier.wait(timeout=30)
+                        got = norm(op(v, ks[i]))
+                        if got != ref[i]:
+                            bad.append((i, got[0][:2], ref[i][0][:2]))
+                except Exception as e:      # a raise in one thread is a difference too
+                    bad.append((i, f"{type(e).__name__}: {str(e)[:80]}", None))
+                    try:
+                        barrier.abort()
+                    except Exception:
+                        pass
+            ts = [threading.Thread(target=work, args=(i,)) for i in range(nthreads)]
+            for t in ts:
+                t.start()
+            for t in ts:
+                t.join(120)
+            F.check("C20", f"threads/concurrent-equals-sequential/{oname}|{bname}", not bad, dict(first=bad[:2], rounds=rounds, threads=nthreads))
 
 
 def runtime_contract(F):
@@ -132,8 +215,10 @@ def main(argv):
             F.check("C20", f"static/frame/{s['function']}:{s['text'].split(' = ')[0][:60]}", False, dict(kind=s["kind"], text=s["text"], where=s["where"]))
     table_builders_only_at_import(src, lambda oid, ok, d=None: F.check("C20", oid, ok, d))
     F.n += 1       # the table-builder clause itself
+    shared = shared_instance_state(src, sites, lambda oid, ok, d=None: F.check("C20", oid, ok, d))
+    F.n += 1       # the shared-instance clause itself
     n_static = F.n
-    for n_, bad_ in C.pool_map(_runtime_worker, [0, 1]):
+    for n_, bad_ in C.pool_map(_runtime_worker, [0, 1, 2]):
         F.n += n_
         F.bad += bad_
     n_rt = F.n - n_static
@@ -169,8 +254,10 @@ def _runtime_worker(i):
     F = E.Fails()
     if i == 0:
         runtime_contract(F)
-    else:
+    elif i == 1:
         numpy_class_dtype_probe(F)
+    else:
+        thread_probe(F, rounds=40 if C.tier() == "quick" else 400)
     return F.n, F.bad
 
 
@@ -186,10 +273,20 @@ def replay(prop, rp, path):
             print("still flagged:", still[:2])
             print(f"VIOLATION property={prop} replay={path} no-failing-input-found")
             return 1
+        if "/shared-instance-state/" in oid:
+            got = []
+            shared_instance_state(src, sites, lambda o, ok, d=None: got.append((f"C20/{o}", d)))
+            still = [g for g in got if g[0] == oid]
+            if still:
+                print("still flagged:", still[:2])
+                print(f"VIOLATION property={prop} replay={path} no-failing-input-found")
+                return 1
         print("no longer flagged")
         return 0
     runtime_contract(F)
     numpy_class_dtype_probe(F)
+    if "/threads/" in oid:
+        thread_probe(F, rounds=400)
     hit = [b for b in F.bad if b[1] == oid]
     if hit:
         print("still failing:", hit[0])
